@@ -126,10 +126,28 @@ COLLECTION_MODELS = {
     "std::iter::IntoIterator::into_iter": _m_same, "std::iter::Iterator::chain": _m_chain,
     "std::iter::Iterator::collect": lambda I, a, n, env: A.VecV(_spread(a[0])),
     "std::iter::Extend::extend": _m_extend,
+    "std::iter::FromIterator::from_iter": lambda I, a, n, env: A.VecV(_spread(a[0])),
+    # `<T as FromStr>::from_str(s)` is `s.parse::<T>()`
+    "std::str::FromStr::from_str": lambda I, a, n, env: A.Sym("%s.parse()" % A.show(a[0]), n.get("ty")),
 }
 
 
+FILE_LINES = "lines-of(args.removal_marker_target_config.some)"
+_FILE_LINES_SPELLINGS = (
+    "load_removal_marker_target_names(args.removal_marker_target_config.some)",
+    # the loader written in place: every line of the file, in order, up to the first read error
+    "std::io::BufReader::new(std::fs::File::open(args.removal_marker_target_config.some).ok).lines().map_while(fn std::result::Result::ok)",
+)
+
+
 def collection_sources(v):
+    out = _collection_sources(v)
+    if out is None:
+        return None
+    return {FILE_LINES if x in _FILE_LINES_SPELLINGS else x for x in out}
+
+
+def _collection_sources(v):
     """The set of source terms of a collection value built in main (see COLLECTION_MODELS), or None if it is opaque."""
     if isinstance(v, A.VecV):
         out = set()
@@ -137,7 +155,7 @@ def collection_sources(v):
             if isinstance(x, A.Variant) and x.name == "..spread":
                 inner = x.args[0]
                 if isinstance(inner, A.VecV):
-                    sub = collection_sources(inner)
+                    sub = _collection_sources(inner)
                     if sub is None:
                         return None
                     out |= sub
@@ -179,8 +197,13 @@ def explore_main(ctx):
 LIB_ENTRIES = ("chiritori::chiritori::clean", "chiritori::chiritori::list", "chiritori::chiritori::list_all")  # extern from the CLI's view
 
 
+_LIB_ENTRY_ALIASES = {"chiritori::clean": "chiritori::chiritori::clean", "chiritori::list": "chiritori::chiritori::list",
+                      "chiritori::list_all": "chiritori::chiritori::list_all"}     # the same functions seen through a `pub use` re-export
+
+
 def entry_calls(out):
-    return [e for e in out["effects"] if e[0] == "call" and e[1] in LIB_ENTRIES]
+    return [(e[0], _LIB_ENTRY_ALIASES.get(e[1], e[1])) + tuple(e[2:]) for e in out["effects"]
+            if e[0] == "call" and _LIB_ENTRY_ALIASES.get(e[1], e[1]) in LIB_ENTRIES]
 
 
 def cli_config_wiring(ctx, res, rule, only=None):
@@ -240,7 +263,9 @@ def cli_config_wiring(ctx, res, rule, only=None):
         n += 1
         # (the value wiring above shows that the parsed string is args.time_limited_current; here: what it is parsed into -
         # the one chrono parse in main or the helpers it is split into)
-        parses = [x for bd in ctx.bin.user_bodies() for x in T.nodes(bd["tree"], "mcall") if x["name"] == "parse" and "chrono::" in (x.get("ty") or "")]
+        parses = [x for bd in ctx.bin.user_bodies() for x in T.nodes(bd["tree"])
+                  if ((x.get("k") == "mcall" and x["name"] == "parse") or (x.get("k") == "call" and (T.cname(x) or "").endswith("FromStr::from_str")))
+                  and "chrono::" in (x.get("ty") or "")]
         if len(parses) == 1 and "chrono::DateTime<chrono::Local>" in parses[0]["ty"]:
             res.holds(rule, fn, "cli-wiring:current-type", parses[0]["ty"])
         else:
@@ -601,6 +626,9 @@ def marker_extents(ctx, res, rule, parts=("range", "unwrap", "empty")):
                                         "(decisions: %s)" % {k[:60]: v for k, v in o["decisions"].items() if k.startswith("ord(")})
                     elif m0 and rel != "=":
                         problems.append("the tail starts at the line break itself although inner lines remain (the last inner line would lose its line break)")
+                    elif m and rel == "=":
+                        problems.append("with adjacent wrapper lines (head end = backward scan) the tail starts one behind the line break they share: that line break "
+                                        "survives, so an empty line is left where exactly four lines must disappear")
             if problems:
                 res.add(Finding(rule, fn, sig, "; ".join(problems), loc=loc))
             else:
